@@ -5,6 +5,7 @@
 -/
 import PonyVerif.Lemmas.RawSql
 import PonyVerif.Model.RawScan
+import PonyVerif.Lemmas.RawScan
 namespace PonyVerif.Props.C30
 open PonyVerif.Model.RawSql
 
@@ -518,6 +519,116 @@ theorem C30_name_ok (c : Char) (w : List Char) (d : Char) (R : List Char)
 example : WF [.text ['a', '='], .expr ['x', '1'] false, .text [',', ' '], .dollar, .text []] :=
   .expr _ _ _ _ (by decide) (C30_name_ok 'x' ['1'] ',' _ (by decide) (by decide) (by decide))
     (.dollar _ _ (by decide) (.last _ (by decide)))
+
+/-! ### everything the scanner returns is well-formed: the image of the scanner is exactly `WF` -/
+
+private theorem mem_takeWhile {α : Type} (p : α → Bool) (l : List α) (x : α) (h : x ∈ l.takeWhile p) : p x = true := by
+  induction l with
+  | nil => simp at h
+  | cons a r ih =>
+    simp only [List.takeWhile] at h
+    cases hp : p a
+    · simp [hp] at h
+    · simp only [hp, List.mem_cons] at h
+      rcases h with rfl | h
+      · exact hp
+      · exact ih h
+
+private theorem text_no_dollar (s : List Char) : '$' ∉ s.takeWhile (· != '$') := by
+  intro h
+  have := mem_takeWhile (· != '$') s '$' h
+  simp at this
+
+private theorem cutSemi_snd (e : List Char) (h : (cutSemi e).2 = false) : (cutSemi e).1.getLast? ≠ some ';' := by
+  unfold cutSemi at h ⊢
+  split
+  · rename_i hl; simp [hl] at h
+  · rename_i hl; exact hl
+
+private theorem scan_wf (fuel : Nat) :
+    ∀ (s : List Char) (toks : List Tok), s.length < fuel → scan fuel s = .ok toks → WF toks := by
+  induction fuel with
+  | zero => intro s toks h; omega
+  | succ n ih =>
+    intro s toks hlen h
+    have hsplit : s.takeWhile (· != '$') ++ s.dropWhile (· != '$') = s := List.takeWhile_append_dropWhile
+    have ht := text_no_dollar s
+    simp only [scan] at h
+    cases hd : s.dropWhile (· != '$') with
+    | nil =>
+      rw [hd] at h
+      simp only [Except.ok.injEq] at h
+      subst h
+      exact WF.last _ ht
+    | cons d r1 =>
+      rw [hd] at h hsplit
+      cases r1 with
+      | nil => simp at h
+      | cons c r =>
+        have hl : s.length = (s.takeWhile (· != '$')).length + (r.length + 2) := by
+          have := congrArg List.length hsplit
+          simp only [List.length_append, List.length_cons] at this
+          omega
+        simp only at h
+        by_cases hc : c = '$'
+        · simp only [hc, if_true] at h
+          obtain ⟨toks', h1, h2⟩ := map_ok _ _ _ h
+          subst h2
+          exact WF.dollar _ _ ht (ih r toks' (by omega) h1)
+        · simp only [hc, if_false] at h
+          cases hp : parseExpr (c :: r) with
+          | none => simp [hp] at h
+          | some k =>
+            simp only [hp] at h
+            obtain ⟨toks', h1, h2⟩ := map_ok _ _ _ h
+            subst h2
+            obtain ⟨hk1, hk2, c0, r0, hcr, hstart⟩ := parseExpr_le (c :: r) k hp
+            have hdl : (List.drop k (c :: r)).length < n := by
+              simp only [List.length_drop, List.length_cons]; omega
+            have hrender := scan_render n _ toks' hdl h1
+            have hcs := cutSemi_render (List.take k (c :: r))
+            have htd := List.take_append_drop k (c :: r)
+            have htl : (List.take k (c :: r)).length = k := by simp only [List.length_take]; omega
+            refine WF.expr _ _ _ _ ht ⟨?_, ?_, ?_⟩ (ih _ toks' hdl h1)
+            · -- the expression text is not empty: it starts with the identifier character or `(` the scanner saw
+              intro he
+              have h0 : (if (cutSemi (List.take k (c :: r))).2 = true then [';'] else []) = List.take k (c :: r) := by
+                rw [he] at hcs; simpa using hcs
+              have hc0 : c = c0 := by injection hcr
+              cases hsemi : (cutSemi (List.take k (c :: r))).2
+              · rw [hsemi] at h0
+                have : (List.take k (c :: r)).length = 0 := by rw [← h0]; rfl
+                omega
+              · rw [hsemi] at h0
+                have hk : k = 1 := by
+                  have := congrArg List.length h0
+                  simp only [if_true, List.length_singleton] at this
+                  omega
+                subst hk
+                simp only [List.take_succ_cons, List.take_zero, if_true, List.cons.injEq, and_true] at h0
+                rcases hstart with hs | hs
+                · rw [← hc0, ← h0] at hs; simp [isIdStart] at hs
+                · rw [← hc0, ← h0] at hs; simp at hs
+            · rw [hrender, hcs, htd, hp]
+              have hlen2 := congrArg List.length hcs
+              rw [htl, List.length_append] at hlen2
+              have hif : (if (cutSemi (List.take k (c :: r))).2 = true then [';'] else []).length =
+                  (if (cutSemi (List.take k (c :: r))).2 = true then 1 else 0) := by split <;> rfl
+              rw [hif] at hlen2
+              exact congrArg some hlen2.symm
+            · exact cutSemi_snd _
+
+/-- the converse of `C30_scan_of_render`'s hypothesis: EVERY token list the scanner returns, for every statement, is
+    well-formed.  Together: a statement is accepted iff it is the rendering of a well-formed token list, and that list
+    is unique (`C30_scanner_exact`). -/
+theorem C30_scan_wf (s : List Char) (toks : List Tok) (h : scanSql s = .ok toks) : WF toks :=
+  scan_wf (s.length + 1) s toks (by omega) h
+
+theorem C30_scanner_exact (s : List Char) (toks : List Tok) :
+    scanSql s = .ok toks ↔ (WF toks ∧ render toks = s) := by
+  constructor
+  · intro h; exact ⟨C30_scan_wf s toks h, C30_scan_render s toks h⟩
+  · rintro ⟨hw, rfl⟩; exact C30_scan_of_render toks hw
 
 /-! ### cache transparency, for all histories -/
 
